@@ -101,6 +101,9 @@ def enum(name, variant, idx):
 def filt(I, P):
     return I.call_repo('mpd_client::filter::Filter::tag::<&str>', [tag_value(P, 'Artist'), str_ref(b'x')])
 FILTER_ARG = b'(Artist == "x")'
+def filt2(I, P):
+    """another filter: builder setters called twice keep the value given last (documented: the filter is replaced)"""
+    return I.call_repo('mpd_client::filter::Filter::tag::<&str>', [tag_value(P, 'Album'), str_ref(b'y')])
 
 # table: name -> (command type text, builder(I, P, p) -> (command value, expected tokens))
 # expected tokens: bytes | ('num', term) | ('rel', sign, term) | ('range', sb, eb) | ('secs3', (s, n), prefix)
@@ -207,6 +210,8 @@ def b_find(I, P, p):
     c = call(I, 'Find::new', [filt(I, P)])
     exp = [b'find', FILTER_ARG]
     if p.boolean():
+        if p.boolean():
+            c = call(I, 'Find::sort', [c, tag_value(P, 'Album')])
         t, nm = p.tag()
         c = call(I, 'Find::sort', [c, t]); exp += [b'sort', nm]
     if p.boolean():
@@ -218,6 +223,8 @@ def b_list(I, P, p):
     c = call(I, 'List::<0>::new', [t]); exp = [b'list', nm]
     flt = p.boolean()
     if flt:
+        if p.boolean():
+            c = call(I, 'List::<0>::filter', [c, filt2(I, P)])
         c = call(I, 'List::<0>::filter', [c, filt(I, P)]); exp.append(FILTER_ARG)
     if p.boolean():
         g, gn = p.tag()
@@ -233,6 +240,8 @@ def b_countgrouped(I, P, p):
         return c, [b'count', FILTER_ARG, b'group', nm]
     c = call(I, 'CountGrouped::new', [t]); exp = [b'count']
     if p.boolean():
+        if p.boolean():
+            c = call(I, 'CountGrouped::filter', [c, filt2(I, P)])
         c = call(I, 'CountGrouped::filter', [c, filt(I, P)]); exp.append(FILTER_ARG)
     return c, exp + [b'group', nm]
 def b_rename(I, P, p):
